@@ -265,5 +265,12 @@ func (m *Manager) createSignedDataToSubmit(ctx context.Context) ([]*types.Signed
 		})
 	}
 
+	if len(signedDataToSubmit) == 0 && len(dataList) > 0 {
+		// only empty data is pending: nothing goes to the DA layer, so it counts as submitted.
+		// Otherwise an idle chain of empty blocks never drains its pending-data count and
+		// block production stops at the pending limit.
+		m.pendingData.setLastSubmittedDataHeight(ctx, m.pendingData.getLastSubmittedDataHeight()+uint64(len(dataList)))
+	}
+
 	return signedDataToSubmit, nil
 }
